@@ -160,13 +160,15 @@ type ctl struct {
 }
 
 type subscriber struct {
-	id     uuid.UUID
-	ch     <-chan types.ServiceStatus
-	cancel context.CancelFunc
-	ctlc   chan ctl
-	quit   chan struct{}
-	mu     sync.Mutex
-	msgs   [][]int
+	id        uuid.UUID
+	ch        <-chan types.ServiceStatus
+	cancel    context.CancelFunc
+	ctlc      chan ctl
+	quit      chan struct{}
+	mu        sync.Mutex
+	msgs      [][]int
+	want      time.Duration // expected Interval of a pushed status (default: twice the harness's push interval)
+	sawClosed atomic.Bool
 }
 
 func (s *subscriber) run(reading, etcdMode bool) {
@@ -180,6 +182,7 @@ func (s *subscriber) run(reading, etcdMode bool) {
 		case m, ok := <-rc:
 			if !ok {
 				closed = true
+				s.sawClosed.Store(true)
 				continue
 			}
 			out := []int{}
@@ -189,7 +192,11 @@ func (s *subscriber) run(reading, etcdMode bool) {
 			if etcdMode {
 				sort.Ints(out)
 			}
-			if !(m.Interval == 2*interval || (m.Interval == 0 && m.Addresses == nil)) {
+			want := s.want
+			if want == 0 {
+				want = 2 * interval
+			}
+			if !(m.Interval == want || (m.Interval == 0 && m.Addresses == nil)) {
 				out = []int{poison}
 			}
 			s.mu.Lock()
@@ -848,66 +855,100 @@ func (g gen) script(name string, etcd bool, allowStall bool) script {
 // a 15 s push interval, so no tick falls into the scenario.
 func calciumGlue(t *testing.T) result {
 	w := cw.New(t, cw.Options{})
-	res := result{Script: script{Name: "calcium-watch-service-status", Etcd: true,
-		Acts: []action{sub(true), put(1), on("cancelunsub", 0)}}, Keys: []int{0}}
+	acts := []action{sub(true), sub(true), on("stall", 0), put(1), on("cancelunsub", 0), put(2), on("cancelunsub", 1)}
+	res := result{Script: script{Name: "calcium-watch-service-status", Etcd: true, Acts: acts}}
 	// let calcium's helium consume the initial (empty) list of its stream first
 	time.Sleep(1200 * time.Millisecond)
-	ctx, cancel := context.WithCancel(w.Ctx)
-	defer cancel()
-	ch, err := w.C.WatchServiceStatus(ctx)
-	if err != nil {
-		res.Err = err.Error()
-		return res
-	}
-	var mu sync.Mutex
-	var msgs [][]int
-	closed := make(chan struct{})
-	go func() {
-		defer close(closed)
-		for m := range ch {
-			out := []int{}
-			for _, a := range m.Addresses {
-				out = append(out, addrOrd(a))
-			}
-			sort.Ints(out)
-			if m.Interval != 2*w.Cfg.GRPCConfig.ServiceDiscoveryPushInterval {
-				out = []int{poison}
-			}
-			mu.Lock()
-			msgs = append(msgs, out)
-			mu.Unlock()
+	want := 2 * w.Cfg.GRPCConfig.ServiceDiscoveryPushInterval
+	var subs []*subscriber
+	defer func() {
+		for _, s := range subs {
+			s.cancel()
+			close(s.quit)
 		}
 	}()
-	take := func() [][][]int {
-		mu.Lock()
-		defer mu.Unlock()
-		out := msgs
-		msgs = nil
-		if out == nil {
-			out = [][]int{}
+	watch := func() error {
+		// the request context is what calcium.WatchServiceStatus hands to Subscribe; cancelling it is
+		// all a client does to go away (calcium's goroutine then calls Unsubscribe)
+		ctx, cancel := context.WithCancel(w.Ctx)
+		ch, err := w.C.WatchServiceStatus(ctx)
+		if err != nil {
+			cancel()
+			return err
 		}
-		return [][][]int{out}
+		sb := &subscriber{ch: ch, cancel: cancel, ctlc: make(chan ctl), quit: make(chan struct{}), want: want}
+		subs = append(subs, sb)
+		go sb.run(true, true)
+		return nil
 	}
-	time.Sleep(300 * time.Millisecond)
-	res.Slots = append(res.Slots, slotObs{Act: res.Script.Acts[0], Got: take()})
-	_, unreg, err := w.RawStore.RegisterService(w.Ctx, addrName(1), 30*time.Second)
-	if err != nil {
-		res.Err = err.Error()
-		return res
+	var unregs []func()
+	defer func() {
+		for _, u := range unregs {
+			go u()
+		}
+	}()
+	snapshot := func(a action) {
+		time.Sleep(450 * time.Millisecond)
+		got := make([][][]int, len(subs))
+		for i, sb := range subs {
+			got[i] = sb.take()
+		}
+		res.Slots = append(res.Slots, slotObs{Act: a, Got: got})
 	}
-	defer unreg()
-	time.Sleep(400 * time.Millisecond)
-	res.Slots = append(res.Slots, slotObs{Act: res.Script.Acts[1], Got: take()})
-	cancel()
-	isClosed := false
-	select {
-	case <-closed:
-		isClosed = true
-	case <-time.After(3 * time.Second):
+	bFirst := false
+	for _, a := range acts {
+		switch a.Kind {
+		case "sub":
+			if err := watch(); err != nil {
+				res.Err = err.Error()
+				return res
+			}
+		case "stall":
+			subs[a.Sub].setReading(false)
+		case "put":
+			_, unreg, err := w.RawStore.RegisterService(w.Ctx, addrName(a.Addr), 30*time.Second)
+			if err != nil {
+				res.Err = err.Error()
+				return res
+			}
+			unregs = append(unregs, unreg)
+		case "cancelunsub":
+			subs[a.Sub].cancel()
+		}
+		snapshot(a)
+		if a.Kind == "put" && a.Addr == 1 {
+			// the push blocks on the stalled subscriber 0: subscriber 1 has its message already
+			// iff it comes first in the iteration order of calcium's helium (ids are not visible here)
+			bFirst = len(res.Slots[len(res.Slots)-1].Got[1]) > 0
+		}
 	}
-	res.Slots = append(res.Slots, slotObs{Act: res.Script.Acts[2], Got: take()})
-	res.FinClosed = []bool{isClosed}
-	res.FinUnsub = []bool{isClosed} // the channel is closed right after the loop received the Unsubscribe
+	if bFirst {
+		res.Keys = []int{1, 0}
+	} else {
+		res.Keys = []int{0, 1}
+	}
+	// final observation: let every reader read, a closed channel is seen at once
+	for _, sb := range subs {
+		sb.setReading(true)
+	}
+	deadline := time.Now().Add(3 * time.Second)
+	for time.Now().Before(deadline) {
+		all := true
+		for _, sb := range subs {
+			if !sb.sawClosed.Load() {
+				all = false
+			}
+		}
+		if all {
+			break
+		}
+		time.Sleep(20 * time.Millisecond)
+	}
+	for _, sb := range subs {
+		c := sb.sawClosed.Load()
+		res.FinClosed = append(res.FinClosed, c)
+		res.FinUnsub = append(res.FinUnsub, c) // the channel is closed right after the loop received the Unsubscribe
+	}
 	return res
 }
 
